@@ -1020,7 +1020,7 @@ var dateRE = regexp.MustCompile(`^\d{4}-\d{2}-\d{2}$`)
 // EntriesFromRDF creates entries from RDF dataset suitable to add to
 // merkle tree
 func EntriesFromRDF(ds *ld.RDFDataset) ([]RDFEntry, error) {
-	return EntriesFromRDFWithHasher(ds, defaultHasher)
+	return EntriesFromRDFWithHasher(ds, nil)
 }
 
 // EntriesFromRDFWithHasher creates entries from RDF dataset suitable to add to with a provided Hasher
@@ -1038,6 +1038,9 @@ func EntriesFromRDFWithHasher(ds *ld.RDFDataset,
 		return nil, errors.New("@default graph not found in dataset")
 	}
 
+	// entries keep the hasher they were requested with (nil means "the
+	// default one at the time of use", as for entries built by NewRDFEntry)
+	entryHasher := hasher
 	if hasher == nil {
 		hasher = defaultHasher
 	}
@@ -1061,7 +1064,7 @@ func EntriesFromRDFWithHasher(ds *ld.RDFDataset,
 			if err != nil {
 				return err
 			}
-			var e RDFEntry
+			e := RDFEntry{hasher: entryHasher}
 			switch qo := q.Object.(type) {
 			case *ld.Literal:
 				if qo == nil {
